@@ -50,6 +50,16 @@ def make_texts(rng):
         free = a.add_res(n3)
         prim.rate, slow.rate, free.rate = 400 + 10 * k, 250, 310 + k      # money columns depend on who did the work
         a.add_task("x%d" % k, effort=16 * 3600, alloc=[prim], alt=[slow, free] if k % 2 == 0 else [free, slow], prio=450)
+    # ... and alternatives that ARE interchangeable in time but not in money: ties go to the one written first, so the order
+    # in which the alternatives are kept decides who does the work (and the next task finds that one busy)
+    pool = [a.add_res(n) for n in ("anna", "bert", "cleo", "dora")]
+    for k, r in enumerate(pool):
+        r.rate = 100 + 37 * k
+    busy = a.add_res("lead", leaves=[(d0, d0 + timedelta(days=12))])
+    busy.rate = 500
+    a.add_task("y0", effort=12 * 3600, alloc=[busy], alt=[pool[2], pool[0], pool[3], pool[1]], prio=440)
+    a.add_task("y1", effort=20 * 3600, alloc=[busy], alt=[pool[1], pool[3], pool[0]], prio=430)
+    a.add_task("y2", effort=6 * 3600, alloc=[pool[3]], prio=420)
     a.extra = REPORT
     b = gen.limits_profile(rng, 1)[0][1]
     b.scenarios = [("plan", [("alt", [])])]
